@@ -19,17 +19,20 @@ Leq(a, b) == a.hi < b.hi \/ (a.hi = b.hi /\ a.lo <= b.lo)
 Diff(a, b) == LET dh == a.hi - b.hi IN
               IF dh > 1 THEN 2000000000 ELSE IF dh < -1 THEN -2000000000 ELSE dh * 1000000000 + (a.lo - b.lo)
 
+Monotone(seq, k) == k > 1 => Leq(seq[k - 1], seq[k])
 \* what the k-th call of rank r must satisfy, given the prefix already accepted
 StepOk(c, r, k) ==
   /\ k <= Len(c.online[r]) /\ k <= Len(c.replay[r])
   /\ c.replay[r][k].c = c.online[r][k].c
   /\ Near(c.replay[r][k], c.online[r][k], c.tol)
-Monotone(seq, k) == k > 1 => Leq(seq[k - 1], seq[k])
+  /\ Monotone(c.replay[r], k) /\ Monotone(c.online[r], k)
 
 Why(c, r, k) ==
   IF k > Len(c.replay[r]) THEN "replay-shorter"
   ELSE IF k > Len(c.online[r]) THEN "replay-longer"
   ELSE IF c.replay[r][k].c # c.online[r][k].c THEN "call"
   ELSE IF ~Near(c.replay[r][k], c.online[r][k], c.tol) THEN "date"
+  ELSE IF ~Monotone(c.replay[r], k) THEN "replay-not-monotone"
+  ELSE IF ~Monotone(c.online[r], k) THEN "online-not-monotone"
   ELSE "none"
 =============================================================================
